@@ -7,16 +7,16 @@ import common
 def main():
     chk = common.Check('C14')
     import fmtcheck_common as C
-    proved = chk.prove('I18n.Props.C14', generated=('cfmt', 'pyfmt', 'tagsites', 'intexpr', 'grammar'))
+    proved = chk.prove('I18n.Props.C14', generated=('cfmt', 'pyfmt', 'tagsites', 'intexpr', 'grammar', 'fmtcheck'))
     problems = ' '.join(chk.lean.problems)
     driver_ok = os.path.exists(common.driver_path()) and not any('untranslatable' in s for s in chk.lean.translation.values()) \
         and 'Driver' not in problems and 'I18n.Model' not in problems and 'I18n.Spec' not in problems
     C.H.ready()
     rng = chk.rng
     boost = 3 if chk.broken else 1
-    n_unit = (120000 if chk.thorough else 14000) * boost
-    n_files = (6000 if chk.thorough else 450) * boost
-    n_lastint = (40000 if chk.thorough else 4000) * boost
+    n_unit = (300000 if chk.thorough else 30000) * boost
+    n_files = (15000 if chk.thorough else 900) * boost
+    n_lastint = (80000 if chk.thorough else 8000) * boost
     per_file = 8
 
     stats = collections.Counter()
@@ -112,7 +112,7 @@ def main():
              '{0,k}, three n, outside the window, broken declarations) x range flags through Checker.check.  non-trivial = distinct message with at '
              'least one format tag',
         trusted=['Lean 4.33 kernel', 'axioms: propext, Classical.choice, Quot.sound only',
-                 'translators cfmt2lean / pyfmt2lean (type tables), tagsites2lean (tag call inventory), intexpr2lean / grammar2lean (plural evaluators)',
+                 'translators cfmt2lean / pyfmt2lean (type tables), tagsites2lean (tag call inventory), intexpr2lean / grammar2lean (plural evaluators), fmtcheck2lean (probes of check_args and get_last_integer_conversion, re-computed by the model in the kernel)',
                  'the model of check_message / check_args / get_last_integer_conversion / the dispatch is hand-written: tied by the fmtcheck-* streams',
                  'the parsers: C and Python-% through the models of C11 / C12 (their own streams); python-brace and perl-brace signatures are '
                  'extracted from the real parser objects by the harness (C13)',
@@ -133,7 +133,7 @@ EXPLANATION = (
     'selected exactly for n = 1, else msgid_plural; omission tolerated only if the filtered preimage has at most one element or is [0, k]), '
     'omission_window (the preimage is the increasing list of n < 200 at which the declared expression evaluates to i, then filtered by the range flag), '
     'c/python/pybrace/perlbrace_check_message_nocrash (no exception leaves check_message, templates included), dispatch_unknown / dispatch_single, '
-    'tag_sites_pin.  Readings made explicit: the corresponding source of the form selected exactly for n = 1 is msgid (as the tags print and data/tags '
+    'tag_sites_pin, probes_pin (kernel evaluation of the model on ~250 rows probed from the live check_args / get_last_integer_conversion each run).  Readings made explicit: the corresponding source of the form selected exactly for n = 1 is msgid (as the tags print and data/tags '
     'documents); "a single n" includes no n; the 200-window is part of the statement; python-brace identifies an argument by its full field name.  '
     'Finding fixed in /repo: 56d8ddf (python-brace check_args raised TypeError when a numbered and a named argument were both missing).  Test level only: '
     'the tie of the hand model to the code (fmtcheck-unit / -lastint / -e2e streams), the brace parsers (inputs here), the extras of single-string '
